@@ -148,3 +148,76 @@ theorem C01_packages_pool_complete (root : Path) (flt : Filter) (ign : List Path
   exact this
 
 end AptMirror
+
+/-! ## Sources -/
+
+namespace AptMirror
+open Index
+
+
+theorem foldl_putPool_distinct (dir : Path) (ign : List Path) (files : List (Path × Int)) (pool : List PoolFile)
+    (hd : pool.Pairwise (fun a b => a.path ≠ b.path)) :
+    (files.foldl (fun pl f =>
+      let full := if isAbsPath f.1 then f.1 else dir ++ f.1
+      putPool pl { path := full, size := f.2, ignoreErrors := shouldIgnore ign full }) pool).Pairwise (fun a b => a.path ≠ b.path) := by
+  induction files generalizing pool with
+  | nil => exact hd
+  | cons f fs ih => exact ih _ (putPool_distinct _ _ hd)
+
+theorem srcFlush_distinct (flt : Filter) (ign : List Path) (a : SrcAcc) (pool : List PoolFile)
+    (hd : pool.Pairwise (fun a b => a.path ≠ b.path)) : (srcFlush flt ign a pool).Pairwise (fun a b => a.path ≠ b.path) := by
+  unfold srcFlush
+  split
+  · split
+    · exact hd
+    · split
+      · exact hd
+      · exact foldl_putPool_distinct _ ign a.files pool hd
+  · exact hd
+
+theorem specSources_distinct (flt : Filter) (ign : List Path) (sts : List SrcStanza) (pool pool' : List PoolFile)
+    (hd : pool.Pairwise (fun a b => a.path ≠ b.path)) (h : specSources flt ign sts pool = .ok pool') :
+    pool'.Pairwise (fun a b => a.path ≠ b.path) := by
+  induction sts generalizing pool with
+  | nil =>
+    simp only [specSources, List.foldlM_nil, pure, Except.pure, Except.ok.injEq] at h
+    rw [← h]; exact hd
+  | cons st sts ih =>
+    simp only [specSources, List.foldlM_cons, bind, Except.bind] at h
+    cases hs : specSrcFields {} st.fields with
+    | error e => rw [hs] at h; cases h
+    | ok a =>
+      rw [hs] at h
+      simp only [pure, Except.pure] at h
+      exact ih (srcFlush flt ign a pool) (srcFlush_distinct flt ign a pool hd) h
+
+/-- **C01 (every source file the published Sources index names is there with its declared size).** Same composition as
+    `C01_packages_pool_complete`, for Sources: the pool queue is what `SourcesParser` derives (`C09_sources_refines`: one file per
+    distinct safe name of the stanza's checksum sections, placed under its Directory), each becomes the queue entry
+    `Index.poolDFile`, and a pool stage that ends without error or missing file leaves every one of them that is not under
+    `ignore_errors` below the mirror root with the size its entry declares. -/
+theorem C01_sources_pool_complete (root : Path) (flt : Filter) (ign : List Path) (sts : List SrcStanza) (last : SrcStanza)
+    (hb : ∀ st ∈ sts, 1 ≤ st.blanks) (hok : ∀ st ∈ sts ++ [last], ∀ f ∈ st.fields, f.OK) (pool : List PoolFile)
+    (hparse : sourcesMachine flt ign ((sts ++ [last]).flatMap SrcStanza.lines) [] = .ok pool)
+    (s : DState) (hwf : s.fs.WF) (hbook : s.book.downloaded = [] ∧ s.book.unmodified = [])
+    (h0 : s.book.errCount = 0 ∧ s.book.missCount = 0)
+    (hclean : (download root (pool.map poolDFile) s).book.errCount = 0 ∧ (download root (pool.map poolDFile) s).book.missCount = 0) :
+    ∀ pf ∈ pool, pf.ignoreErrors = false → 0 < pf.size →
+      (download root (pool.map poolDFile) s).fs.sizeAt (root ++ pf.path) = some pf.size.toNat := by
+  intro pf hpf hig hsz
+  rw [C09_sources_refines flt ign sts last hb hok []] at hparse
+  have hdist := specSources_distinct flt ign (sts ++ [last]) [] pool List.Pairwise.nil hparse
+  have hmem : poolDFile pf ∈ pool.map poolDFile := List.mem_map.mpr ⟨pf, hpf, rfl⟩
+  obtain ⟨hcs, him, hie⟩ := poolDFile_flags pf
+  obtain ⟨v, hv, _, hsound⟩ := C01_clean_stage_sizes root (pool.map poolDFile) s hwf hbook h0 (poolQueue_disjoint pool hdist)
+    (fun f hf _ => by
+      obtain ⟨x, _, rfl⟩ := List.mem_map.mp hf
+      exact poolDFile_shape x)
+    hclean (poolDFile pf) hmem (by rw [hie]; exact hig) him
+  rw [poolDFile_variants] at hv
+  simp only [List.mem_singleton] at hv
+  subst hv
+  have hpos : 0 < pf.size.toNat := by omega
+  exact hsound hpos pf.path (by simp [Variant.allPaths])
+
+end AptMirror
